@@ -38,7 +38,7 @@ pub fn prop() -> Prop {
         stub: &["random source (recording / replaying / perturbing)", "glue"],
         independent: &[],
         ref_sample: |_| 0,
-        required_probes: &["ep_generate_with_dealer", "ep_split", "ep_dkg_part1", "ep_compute_refreshing_shares", "ep_refresh_dkg_part1", "ep_repair_share_part1", "ep_new_from_commitments", "ep_signing_key_new", "ep_signing_key_sign", "ep_batch_verify", "t_ge_4"],
+        required_probes: &["special_draws_checked", "ep_generate_with_dealer", "ep_split", "ep_dkg_part1", "ep_compute_refreshing_shares", "ep_refresh_dkg_part1", "ep_repair_share_part1", "ep_new_from_commitments", "ep_signing_key_new", "ep_signing_key_sign", "ep_batch_verify", "t_ge_4"],
         prepare: None,
     }
 }
@@ -187,6 +187,59 @@ fn trial<C: Suite>(name: &str, scen: &Scenario, run: &Runner<C>, min_listed: usi
         };
         if o0.listed.len() >= 2 && !ds.iter().any(|d| stayed_under.get(d).map(|s| !s.is_empty()).unwrap_or(false)) {
             return viol("C16.values_share_one_draw", format!("every window of the consumed randomness that moves '{l}' moves all other secret-derived values too: it is not drawn on its own"));
+        }
+    }
+    // (d) special source outputs for one request at a time - all zeroes, and the encodings of the scalars 1 and 2 - with the
+    // rest of the stream unchanged: different source outputs must not collapse into the same value (a fallback to a fixed value
+    // when a draw is unusable, instead of drawing again, is exactly such a collapse)
+    {
+        let specials: Vec<(&str, Option<Vec<u8>>)> = vec![("one", craft_draw::<C>(one::<C>())), ("two", craft_draw::<C>(sc_from_u64::<C>(2)))];
+        let mut reqs: Vec<usize> = (0..draws.len()).collect();
+        if reqs.len() > 10 {
+            let tail: Vec<usize> = reqs[reqs.len() - 4..].to_vec();
+            reqs.truncate(6);
+            reqs.extend(tail);
+        }
+        for di in reqs {
+            let (off, len) = draws[di];
+            let mut cands: Vec<(&str, Vec<u8>)> = vec![("zeroes", vec![0u8; len])];
+            for (n, c) in &specials {
+                if let Some(c) = c {
+                    if c.len() == len {
+                        cands.push((*n, c.clone()));
+                    }
+                }
+            }
+            if cands.len() < 2 {
+                rep.probe("special_draw_no_candidates");
+                continue;
+            }
+            let mut outs: Vec<(&str, Out)> = Vec::new();
+            for (cn, c) in &cands {
+                let mut st = recorded.clone();
+                st[off..off + len].copy_from_slice(c);
+                let mut r = SimRng::replay(st, stream(scen.seed, scen.run, "c16/fallback"));
+                rep.evaluations += 1;
+                // an unusable draw may legitimately make the call fail (e.g. a zero coefficient): no verdict then
+                match std::panic::catch_unwind(std::panic::AssertUnwindSafe(|| run(&mut r))) {
+                    Ok(Ok(o)) => outs.push((*cn, o)),
+                    _ => rep.probe("special_draw_call_failed"),
+                }
+            }
+            for i in 0..outs.len() {
+                for j in (i + 1)..outs.len() {
+                    for l in &o0.listed {
+                        let (Some(a), Some(b)) = (outs[i].1.all.get(l), outs[j].1.all.get(l)) else { continue };
+                        if a == b && Some(a) != o0.all.get(l) {
+                            return viol(
+                                "C16.different_source_output_same_value",
+                                format!("request #{di} ({len} bytes) answered with {} and with {} (rest of the stream unchanged) gives the same '{l}' = {}: the value is a fixed fallback, not drawn from the source", outs[i].0, outs[j].0, hexs(a)),
+                            );
+                        }
+                    }
+                }
+            }
+            rep.probe("special_draws_checked");
         }
     }
     rep.extra_shapes.push(format!("{}|{name}|n{}t{}|d{}", scen.suite, scen.n, scen.t, draws.len()));
